@@ -179,6 +179,7 @@ func buildCorpus(thorough bool) []corpusCase {
 	add(rawCase("item", cat(mustHex("4802"), mustHex("21010100"), mustHex("21010120")))) // duplicate key
 	add(rawCase("item", cat(mustHex("2120"), make([]byte, 32))))
 	add(rawCase("item", cat(mustHex("2121"), make([]byte, 33))))
+	add(rawCase("item", cat(mustHex("4002"), mustHex("28fea0860100"), make([]byte, 100000), mustHex("28fea0860100"), make([]byte, 100000)))) // decodes, but is over MaxSize in total: cannot be re-encoded
 	add(rawCase("item", mustHex("21020100"))) // padded integer
 	add(rawCase("item", mustHex("2002")))     // bool byte 2
 	add(rawCase("mptnode", cat(repeat(mustHex("010100"), 136), []byte{4}))) // extension chain, depth 136
@@ -223,6 +224,7 @@ func buildCorpus(thorough bool) []corpusCase {
 			}
 		}
 	})
+	cs = append(cs, boundaryCorpus()...)
 	if thorough {
 		// maximum payload: 32 MiB of zeroes claimed and present
 		add(rawCase("message0", cat([]byte{0, byte(network.CMDExtensible)}, mustHex("fe00000002"), make([]byte, 0x2000000))))
